@@ -83,15 +83,18 @@ CHECKS['C04'] = {
     'note': 'Trusted: pyvc; torch operations modelled as numpy (arg-max = first maximal index); that the two decoders agree (equal characterisations => equal lists) is bounded only.',
 }
 CHECKS['C05'] = {
-    'level': 'other',
-    'technique': 'hybrid: deductive proof of the helper contracts of force_alignment.py (z3) + bounded run-time contract of force_align/align_text against brute force over all frame labelings',
-    'text': ('PROVED for all inputs: hmm_trans_from_string (exact transition structure), complete_state_seq, initial_cost, final_cost, compute_update '
-             '(one min-plus step: lower bound over all allowed transitions + attained by the recorded predecessor), backtrack (follows the back-pointers). '
-             'BOUNDED: force_align collapses to the labels with the brute-force minimum cost, fails iff no finite alignment / blank among labels; align_text '
-             'positions increasing and most confident in block — on a finite grid of cost matrices (incl. +inf, ties, repeats, both blank positions). '
-             'force_align (composition): one symbol per frame = symbol of the state of a minimum-cost allowed state path of the CTC topology of the labels; the sequence '
-             'collapses to the labels (inductive lemma: number of collapse events = number of labels entered).  align_text (most confident frame per block) is bounded only.'),
-    'note': 'Trusted: pyvc; A4 numba.jit = Python semantics; np.where(A != inf) modelled as two index arrays; brute-force oracle specs/viterbi.py.',
+    'level': 'proof',
+    'technique': ('deductive verification of every function of force_alignment.py (own VC generator over the real Python AST + z3; inductive lemmas at the return points); '
+                  'bounded run-time contract of force_align / align_text against brute force over all frame labelings as cross-check'),
+    'text': ('PROVED for all inputs (10 contracts): hmm_trans_from_string (exact CTC transition structure), complete_state_seq (raises iff blank among labels), initial_cost, '
+             'final_cost, compute_update (one min-plus step), backtrack, viterbi_align (DP invariant act_cost = V(t,.) for V given by the Bellman conditions; ValueError iff no '
+             'finite alignment; the returned path is allowed, starts / ends correctly, realises V, and no allowed state path ending in a final state is cheaper — inductive '
+             'lemma over an arbitrary path), force_align (the code builds exactly the expanded cost matrix and topology; one symbol per frame; the sequence collapses to the '
+             'labels — inductive lemma over collapse events; minimum cost), its positions variant (label indices never decrease, every label owns a frame — explicit witness '
+             'function), align_text (each character on the most confident frame of its own block, positions strictly increasing).  '
+             'BOUNDED cross-check: the same clauses against brute force over ALL frame labelings on a finite grid of cost matrices (incl. +inf, ties, repeats, both blank positions).'),
+    'note': ('Trusted: pyvc; A4 numba.jit = Python semantics; np.where / np.nonzero / arg-max models; an alignment is identified with an allowed state path of the CTC topology '
+             '(textbook correspondence, cross-checked by the bounded tier); force_align requires the no-raise conditions of its callees, each of which is proved to raise exactly then.'),
 }
 
 CHECKS['C16'] = {
